@@ -257,8 +257,24 @@ fn compare(loom: &LoomResult, lean: &LeanResult) -> (Option<String>, bool, u64) 
     (None, equal, validated)
 }
 
+/// Preemption bound of the second, complementary pass of the thorough tier (see `evaluate`).
+const COMPLEMENT_BOUND: usize = 3;
+
 /// Runs loom (and the model) on one program.
-fn evaluate(p: &Prog, bound: Option<usize>, allow_fallback: bool, lean: &mut Option<Lean>) -> Eval {
+///
+/// `complement`: loom 0.7's unbounded mode is plain DPOR that only remembers the LAST access
+/// to each object, so it can miss interleavings (e.g. `mutate | mutate drop`: the second
+/// thread's own `load` shadows the first thread's `load` when its `fetch_sub` looks for a racing
+/// access; 3 executions, one outcome missing).  Its preemption-bounded mode adds conservative
+/// backtrack points and finds them.  The thorough tier therefore runs BOTH (unbounded, then
+/// bound 3) and uses the union of the outcome sets.
+fn evaluate(
+    p: &Prog,
+    bound: Option<usize>,
+    allow_fallback: bool,
+    complement: bool,
+    lean: &mut Option<Lean>,
+) -> Eval {
     let budget = if bound.is_none() { Some(UNBOUNDED_BUDGET) } else { None };
     let mut loom = run_program(p, bound, budget);
     if allow_fallback && bound.is_none() && (loom.truncated || loom.verdict == "branch-limit") {
@@ -268,6 +284,25 @@ fn evaluate(p: &Prog, bound: Option<usize>, allow_fallback: bool, lean: &mut Opt
         loom.note = Some(format!(
             "unbounded run hit the {why} after {first_iters} iterations; fell back to preemption_bound={FALLBACK_BOUND}"
         ));
+    } else if complement && bound.is_none() && loom.verdict == "ok" {
+        let second = run_program(p, Some(COMPLEMENT_BOUND), None);
+        let missed: Vec<String> =
+            second.outcomes.keys().filter(|o| !loom.outcomes.contains_key(*o)).cloned().collect();
+        if !missed.is_empty() {
+            loom.note = Some(format!(
+                "loom's unbounded DPOR ({} executions) missed outcome(s) found with preemption_bound={COMPLEMENT_BOUND}: {}",
+                loom.iterations,
+                missed.join(" ")
+            ));
+        }
+        loom.iterations += second.iterations;
+        for (o, n) in second.outcomes {
+            *loom.outcomes.entry(o).or_insert(0) += n;
+        }
+        if second.verdict != "ok" {
+            loom.verdict = second.verdict;
+            loom.message = second.message;
+        }
     }
     let lean_res = match lean {
         Some(l) => Some(l.query(&p.line()).unwrap_or_else(|e| internal(&e))),
@@ -285,7 +320,7 @@ fn evaluate(p: &Prog, bound: Option<usize>, allow_fallback: bool, lean: &mut Opt
 
 /// Greedy shrinking of a disagreeing program: delete one action at a time while the two sides
 /// still disagree (and loom does not merely deadlock on a now unsatisfiable `recv`).
-fn shrink(ev: Eval, bound: Option<usize>, lean: &mut Option<Lean>) -> Eval {
+fn shrink(ev: Eval, bound: Option<usize>, complement: bool, lean: &mut Option<Lean>) -> Eval {
     let mut best = ev;
     let mut progress = true;
     let mut tries = 0;
@@ -299,7 +334,7 @@ fn shrink(ev: Eval, bound: Option<usize>, lean: &mut Option<Lean>) -> Eval {
                 if cand.threads.iter().all(|th| th.is_empty()) || !cand.recv_satisfiable() {
                     continue;
                 }
-                let e = evaluate(&cand, bound, false, lean);
+                let e = evaluate(&cand, bound, false, complement, lean);
                 if e.problem.is_some() && e.loom.verdict != "deadlock" && !e.loom.truncated {
                     best = e;
                     progress = true;
@@ -352,15 +387,18 @@ fn main() {
         }
     };
 
+    // thorough tier without an explicit --bound: unbounded pass + bounded complement pass
+    let complement = args.tier == "thorough" && args.bound.is_none();
+
     let mut lean = args.lean.as_deref().map(Lean::spawn);
 
     let mut evals: Vec<Eval> = Vec::new();
     for p in &progs {
         let t0 = Instant::now();
-        let mut ev = evaluate(p, bound, true, &mut lean);
+        let mut ev = evaluate(p, bound, true, complement, &mut lean);
         if ev.problem.is_some() && ev.loom.verdict != "deadlock" {
             let b = ev.loom.bound;
-            ev = shrink(ev, b, &mut lean);
+            ev = shrink(ev, b, complement, &mut lean);
         }
         if args.verbose {
             eprintln!(
@@ -495,6 +533,17 @@ fn main() {
     j.num("traces_validated_against_impl", evals.iter().map(|e| e.validated).sum());
     j.num("loom_iterations", evals.iter().map(|e| e.loom.iterations).sum());
     j.raw("preemption_bound", &bound.map(|b| b.to_string()).unwrap_or_else(|| "null".into()));
+    j.raw(
+        "complement_preemption_bound",
+        &if complement { COMPLEMENT_BOUND.to_string() } else { "null".into() },
+    );
+    j.num(
+        "unbounded_dpor_missed",
+        evals
+            .iter()
+            .filter(|e| e.loom.note.as_deref().map_or(false, |n| n.contains("DPOR")))
+            .count() as u64,
+    );
     j.num("outcome_sets_equal", quick_equal as u64);
     j.num("programs_bounded", evals.iter().filter(|e| e.loom.bound.is_some()).count() as u64);
     j.raw("notes", &json::str_array(notes.iter().map(|s| s.as_str())));
